@@ -39,12 +39,14 @@ StrLenCalls ==
 PatAPlus == VPat(RRep(RLit(A), 1, INF, FALSE))                         \* a+
 PatAbAnch == VPat(RSeq(<<RStart, RLit(A), RLit(B), REnd>>))            \* ^ab$
 PatC == VPat(RLit(C))                                                  \* c
+PatDigitNL == VPat(RSeq(<<RDigit, RLit(10)>>))                         \* \d followed by a line feed
+PatNegCat == VPat(RRep(RClass(TRUE, <<CRange(A, C), CLit(95), CCat("digit")>>), 2, 2, FALSE))   \* [^a-c_\d]{2}
 StrCalls ==
   {Call("value", <<v>>) : v \in StrVals \cup {VInt(1), VNone, VBytes(<<A>>)}}
   \cup StrLenCalls
   \cup {Call("alphabet", <<v>>) : v \in {VStr(<<A, B>>), VStr(<<A, B, C>>), VStr(<<>>), VInt(1)}}
   \cup {Call("contains", <<v>>) : v \in {VStr(<<B>>), VStr(<<C>>), VStr(<<>>), VNone}}
-  \cup {Call("regex", <<v>>) : v \in {PatAPlus, PatAbAnch, PatC, VBadPat("error"),
+  \cup {Call("regex", <<v>>) : v \in {PatAPlus, PatAbAnch, PatC, PatDigitNL, PatNegCat, VBadPat("error"),
                                       VBadPat("overflow"), VInt(1)}}
 
 BoolCalls == {Call("value", <<v>>) : v \in {VBool(TRUE), VBool(FALSE), VInt(1), VInt(0), VNone, VStr(<<A>>)}}
